@@ -125,3 +125,91 @@ Lemma read_ok_repaired (A : Alg) db v f rt s n :
 Proof.
   intros Hv Hw Hm Hn. apply read_ok; auto. unfold covered. apply uncovered_repaired; auto.
 Qed.
+
+(* ---- the frozen tree (v_align, v_alloc0; padding still by native type) ------------ *)
+Definition only_rawpad (l : list tag) : Prop := forall t, In t l -> t = TRawPad.
+
+Lemma only_rawpad_app l1 l2 : only_rawpad l1 -> only_rawpad l2 -> only_rawpad (l1 ++ l2).
+Proof. intros H1 H2 t Ht. apply in_app_or in Ht. destruct Ht; auto. Qed.
+
+Lemma only_rawpad_nil : only_rawpad [].
+Proof. intros t []. Qed.
+
+Lemma uncovered_current (A : Alg) db v f : v_align v = true -> v_alloc0 v = true -> mplex_free f ->
+  forall rt s n, only_rawpad (uncovered A db v rt f s n).
+Proof.
+  intros Ha Hz. induction f; simpl; intros Hm rt s n.
+  - destruct (n <=? 0); [apply only_rawpad_nil|]. unfold tag_if.
+    match goal with |- only_rawpad (if ?c then _ else _) => destruct c end;
+      [intros t [<-|[]]; reflexivity | apply only_rawpad_nil].
+  - apply only_rawpad_nil.
+  - apply IHf; auto.
+  - rewrite Hz. simpl. apply IHf; auto.
+  - destruct Hm as [Hm1 Hm2]. apply only_rawpad_app; [apply IHf1; auto|].
+    destruct (spec_count db f1 s n <=? 0); [apply only_rawpad_nil|]. rewrite Ha. simpl. apply IHf2; auto.
+  - destruct Hm as (Hm1 & Hm2 & Hm3). apply only_rawpad_app; [apply IHf1; auto|].
+    destruct (spec_count db f1 s n <=? 0); [apply only_rawpad_nil|]. rewrite Ha. simpl.
+    apply only_rawpad_app; [apply IHf2; auto|].
+    match goal with |- only_rawpad (if ?c then _ else _) => destruct c; [apply only_rawpad_nil|] end.
+    match goal with |- only_rawpad (if ?c then _ else _) => destruct c; [apply only_rawpad_nil|] end.
+    apply IHf3; auto.
+  - tauto.
+Qed.
+
+(* THE theorem for the frozen tree: for every MPLEX-free field and every window,
+   the only way to leave the specification is the native-type padding of a RAW
+   leaf (the open finding getdata/raw-bof-pad-native-type) *)
+Lemma read_ok_current (A : Alg) db v f rt s n :
+  v_align v = true -> v_alloc0 v = true -> wf db f -> mplex_free f -> 0 <= n ->
+  ~ In TRawPad (uncovered A db v rt f s n) ->
+  impl_read A db v rt f s n = Some (spec_window A db rt f s n).
+Proof.
+  intros Ha Hz Hw Hm Hn Hp. apply read_ok; auto. unfold covered.
+  pose proof (uncovered_current A db v f Ha Hz Hm rt s n) as H.
+  destruct (uncovered A db v rt f s n) as [|t l]; [reflexivity|].
+  exfalso. apply Hp. rewrite (H t (or_introl eq_refl)). left. reflexivity.
+Qed.
+
+(* sample k does not depend on how the window is split *)
+Lemma spec_window_split (A : Alg) db rt f s a b : 0 <= a -> 0 <= b ->
+  spec_count db f s a = a ->
+  spec_window A db rt f s (a + b) = spec_window A db rt f s a ++ spec_window A db rt f (s + a) b.
+Proof.
+  intros Ha Hb Hfull. unfold spec_window, spec_count in *.
+  assert (Hc : ecount (eof db f) s (a + b) = a + ecount (eof db f) (s + a) b).
+  { destruct (eof db f); simpl in *; lia. }
+  rewrite Hc, Hfull. rewrite zrange_app, map_app; [reflexivity|lia|].
+  destruct (eof db f); simpl; lia.
+Qed.
+
+Lemma window_split (A : Alg) db v f rt s a b X Y :
+  wf db f -> 0 <= a -> 0 <= b ->
+  covered A db v rt f s (a + b) -> covered A db v rt f s a -> covered A db v rt f (s + a) b ->
+  impl_read A db v rt f s a = Some X -> zlen X = a ->
+  impl_read A db v rt f (s + a) b = Some Y ->
+  impl_read A db v rt f s (a + b) = Some (X ++ Y).
+Proof.
+  intros Hw Ha Hb C1 C2 C3 EX HX EY.
+  rewrite (read_ok A db v f rt s a Hw Ha C2) in EX. injection EX as <-.
+  rewrite (read_ok A db v f rt (s + a) b Hw Hb C3) in EY. injection EY as <-.
+  rewrite (read_ok A db v f rt s (a + b) Hw ltac:(lia) C1). f_equal.
+  apply spec_window_split; auto. rewrite zlen_spec_window in HX by auto. exact HX.
+Qed.
+
+(* the padding witness refutes the full statement for the frozen tree as well *)
+Lemma statement_refuted_current : ~ read_matches_spec_statement vc.
+Proof.
+  intro H.
+  assert (Hw : wf db_fo a) by (vm_compute; intuition discriminate).
+  pose proof (H XAlg db_fo a F64 2 4 Hw ltac:(lia) ltac:(lia)) as H0.
+  assert (Hi : impl_read XAlg db_fo vc F64 a 2 4 = Some [XV 0; XV 0; XV 4607182418800017408; XV 4611686018427387904])
+    by (vm_compute; reflexivity).
+  assert (Hs : spec_window XAlg db_fo F64 a 2 4 =
+    [XV 9221120237041090560; XV 9221120237041090560; XV 4607182418800017408; XV 4611686018427387904])
+    by (vm_compute; reflexivity).
+  assert (E : Some [XV 0; XV 0; XV 4607182418800017408; XV 4611686018427387904] =
+              Some [XV 9221120237041090560; XV 9221120237041090560; XV 4607182418800017408; XV 4611686018427387904]).
+  { transitivity (impl_read XAlg db_fo vc F64 a 2 4); [symmetry; exact Hi|].
+    transitivity (Some (spec_window XAlg db_fo F64 a 2 4)); [exact H0|]. rewrite Hs. reflexivity. }
+  clear - E. injection E as E1. discriminate E1.
+Qed.
